@@ -366,6 +366,8 @@ func (c14) Eval(c *Case) (*Violation, bool) {
 			{"balance", "--color=false", "--digits", "2147483647", main},
 			{"portfolio", "weights", "-v", comOr(c.J, "CHF"), "--digits", "2147483647", main},
 			{"register", "--digits", "2147483647", main},
+			{"balance", "--color=false", "--digits", "-100000000", main},
+			{"balance", "--color=false", "--digits", "-2147483648", main},
 			{"portfolio", "weights", "-v", comOr(c.J, "CHF"), "-m", "-1,.", main},
 			{"portfolio", "weights", "-v", comOr(c.J, "CHF"), "-m", "1:-1,.", main},
 			{"balance", "--color=false", "--digits", "-1", main},
